@@ -9,13 +9,13 @@ from pathlib import Path
 PROPERTIES = ["C01"]
 MANIFEST = {
     "C01": {
-        "technique": "Lean 4 proof (invariant + refinement of a model of Map/MultiMap with stored height/slope fields, early-exit flags, threaded prev/next list and free list to a sorted association list, by induction over reachable states; lookup cost <= 2*height and the Fibonacci height bound) + tie by translation: tools/gen_avl.py translates the pointer code of the current Map.hpp / MultiMap.hpp (rotations, find, count, clear, the complete private insert, insert(key,value), insert(position,key,value), the complete remove(it)) into Lean functions over a record-of-nodes heap on every run, and theorems prove that, run on any heap that represents a reachable model state, the translated code yields a heap that represents the model's step (all of them except the two-children paths of remove) + differential correspondence model vs real Map.hpp/MultiMap.hpp with a comparison-counting key type and a white-box comparison of every stored field after every op",
-        "text": "Theorems (lean/Nstd/Avl/Props.lean, PropsK.lean, PropsKSpec.lean, PropsIds.lean, PropsRot.lean, PropsComp.lean, PropsComp2.lean, PropsComp3.lean) over ALL operation histories of the Lean model, including hinted inserts at every position, removals by key/iterator, removeFront/Back, clear, copy construction and copy assignment (Map and MultiMap) and bulk insert between Maps: every reachable tree is an AVL-balanced search tree with correct stored height/slope, the prev/next list threads its in-order sequence (inv_reach, iter_reach, isEmpty_reach); every op takes a step of the sorted-(multi)map specification on contents, acceptance and returned value (refines_rel, refines_run_rel; MultiMap hinted insert relationally via Spec.HintPos); copies hold exactly the source's entries, a MultiMap copy keeps equal keys in order (copy_spec, copy_ctor_spec); MultiMap plain inserts are stable, count is exact; find needs <= 2*floor(1.4405*log2(n+2)) comparisons (find_cost_log), every other op at most 3 more (op_cost_log); items keep their identity unless an op removes exactly them (ids_stable_step); an insert that creates an item takes the head of the LIFO free list or the last slot of a fresh block of N items, never the address of a live item, and the first insert after remove(it) reuses exactly the removed address (alloc_lifo, insert_takes_free_head, remove_then_insert_reuses; N translated from the headers).  PropsK/PropsIds restate cost, height, order and identity for every strictly totally ordered key type; PropsKSpec states the refinement directly against a specification typed over K (G.refines_relK, G.refines_run_relK).  Tie by translation (the functions are regenerated from the CURRENT Map.hpp and MultiMap.hpp by tools/gen_avl.py on every run; ReprSt h s = heap h represents model state s: root holds the tree with every stored field, child and parent link, _begin.item / next / prev / the sentinel thread the list, _size, freeItem heads the free list chained through prev, block count): PropsRot - Item::updateHeightAndSlope, rotr, rotl, shiftr, shiftl, rebal are the model's upd/rotr/rotl/shiftr/shiftl/rebal (gen_*_eq_model), plus the pieces (descent, threading, upward loops, hint tests, head of remove).  PropsComp - ONE theorem per public operation, for every reachable state s and every heap that represents it: insert(key,value) incl. the complete private insert (descent, allocation from the free list or a fresh block, construction, linking, ++_size, first item / threading + upward loop with its early exit) = step s (insert k v) with exactly the model's key comparisons and the returned pointer at the returned position (gen_insert_plain_eq_model; gen_insert_private_{map,multi}_eq_model for the private insert started in any cell); insert(position,key,value) of Map and MultiMap = step s (insertAt p k v) (gen_insert_at_eq_model: neighbour tests, fall-back to the root, value replacement); find = step s (find k), MultiMap::count = step s (count k) (gen_find_eq_step, gen_count_eq_step).  PropsComp2 - clear() = step s clear (gen_clear_eq_step).  PropsComp3 - the complete remove(it) of an item without left or without right child = step s (removeAt p): relinking of the only child, rebalParentUpwards loop, unlinking from the list, --_size, push onto the free list, returned iterator (gen_remove_trivial_eq_step).  The model is additionally tied to the current headers on every run: identical op lines are executed on both (two Maps and two MultiMaps) and compared on size, full iteration, returned iterator, key comparisons of every op (not of copy construction / assignment: the property bounds lookups only), for every key of the domain the find result and its comparison count, and (white-box, both tiers) the serialised tree with every stored height/slope and parent link, the prev/next list as item ids and the free list in order (a copy-constructed container is compared without item ids and free list from then on: how many items a copy constructor allocates at once is not part of the property); an independent Python sorted (multi)map and the direct integer evaluation of the comparison bound are evaluated on the implementation's output.",
-        "note": "Trusted: Lean kernel + the three standard axioms; tools/gen_avl.py (tokenizer + parser + translation of a C++ subset: Item* = Nat with 0 = null and item id i at pointer i+1, Item*& / Item** = Cell, usize = Nat, ssize = Int, `usize - usize` stored into an ssize = mathematical difference, loops = recursion in a fuel argument (the theorems show height+1 resp. size+1 units suffice), ASSERTs and destructor calls skipped, the block allocation `new char[sizeof(ItemBlock) + sizeof(Item) * N]` + fill loop recognised as a unit = Heap.allocBlock (allocation never fails; the b-th block holds the pointers N*b+1..N*b+N), `new(item) Item(parent,key,value)` = the stores of the constructor's initialiser list, the threading statements / the upward loop / the loops of remove outlined into separately translated fragments cut from the same text, labels of remove as continuations; anything outside the subset is refused and reported as a broken tie); the hypothesis EndOutsideNextBlock of the insert theorems (the sentinel endItem, a member of the container, does not lie inside the block the pool allocates next).  NOT proved by translation, only hand-translated in the model and tied by the correspondence run incl. the white-box comparison: the two-children paths of remove(it) (successor / predecessor relinking and the rebalParent loop - translated, part of the generated `remove`, but not proved: OPEN block of PropsComp3.lean), remove(key) / removeFront / removeBack / contains (one-line bodies over find / remove), the copy loops of the copy constructor / operator= / insert(const Map&) (they run over a second container), the iterator accessors.  Pointers in the model are in-order positions / item ids (an iterator handed to insert/remove is the position it has in the iteration; the translated code receives the pointer of the item at that position); the checked model has Int keys, the key-generic copy ModelK.lean is proved equal to it at K = Int (G.int_instance); the items-per-block constant of the node pool is translated from the current headers on every run (Generated/AvlConst.lean) and the translated insertLeaf must use the same value (map_insertLeaf_eq / multi_insertLeaf_eq); valid iterators; self-assignment is C04's business.  The MultiMap.hpp copies of the rotation functions, of the upward loops, of the threading, of clear and of remove are proved equal to the Map.hpp ones (code_eq, multi_*).  The repaired MultiMap::find/count (fixes/avl/01,02) is what the model mirrors.",
+        "technique": "Lean 4 proof (invariant + refinement of a model of Map/MultiMap with stored height/slope fields, early-exit flags, threaded prev/next list and free list to a sorted association list, by induction over reachable states; lookup cost <= 2*height and the Fibonacci height bound) + tie by translation: tools/gen_avl.py translates the pointer code of the current Map.hpp / MultiMap.hpp (rotations, find, count, clear, the complete private insert, insert(key,value), insert(position,key,value), the complete remove(it)) into Lean functions over a record-of-nodes heap on every run, and theorems prove that, run on any heap that represents a reachable model state, the translated code yields a heap that represents the model's step (every public operation except the copy loops) + differential correspondence model vs real Map.hpp/MultiMap.hpp with a comparison-counting key type and a white-box comparison of every stored field after every op",
+        "text": "Theorems (lean/Nstd/Avl/Props.lean, PropsK.lean, PropsKSpec.lean, PropsIds.lean, PropsRot.lean, PropsComp.lean, PropsComp2.lean, PropsComp3.lean, PropsComp4.lean, PropsComp5.lean) over ALL operation histories of the Lean model, including hinted inserts at every position, removals by key/iterator, removeFront/Back, clear, copy construction and copy assignment (Map and MultiMap) and bulk insert between Maps: every reachable tree is an AVL-balanced search tree with correct stored height/slope, the prev/next list threads its in-order sequence (inv_reach, iter_reach, isEmpty_reach); every op takes a step of the sorted-(multi)map specification on contents, acceptance and returned value (refines_rel, refines_run_rel; MultiMap hinted insert relationally via Spec.HintPos); copies hold exactly the source's entries, a MultiMap copy keeps equal keys in order (copy_spec, copy_ctor_spec); MultiMap plain inserts are stable, count is exact; find needs <= 2*floor(1.4405*log2(n+2)) comparisons (find_cost_log), every other op at most 3 more (op_cost_log); items keep their identity unless an op removes exactly them (ids_stable_step); an insert that creates an item takes the head of the LIFO free list or the last slot of a fresh block of N items, never the address of a live item, and the first insert after remove(it) reuses exactly the removed address (alloc_lifo, insert_takes_free_head, remove_then_insert_reuses; N translated from the headers).  PropsK/PropsIds restate cost, height, order and identity for every strictly totally ordered key type; PropsKSpec states the refinement directly against a specification typed over K (G.refines_relK, G.refines_run_relK).  Tie by translation (the functions are regenerated from the CURRENT Map.hpp and MultiMap.hpp by tools/gen_avl.py on every run; ReprSt h s = heap h represents model state s: root holds the tree with every stored field, child and parent link, _begin.item / next / prev / the sentinel thread the list, _size, freeItem heads the free list chained through prev, block count): PropsRot - Item::updateHeightAndSlope, rotr, rotl, shiftr, shiftl, rebal are the model's upd/rotr/rotl/shiftr/shiftl/rebal (gen_*_eq_model), plus the pieces (descent, threading, upward loops, hint tests, head of remove).  PropsComp - ONE theorem per public operation, for every reachable state s and every heap that represents it: insert(key,value) incl. the complete private insert (descent, allocation from the free list or a fresh block, construction, linking, ++_size, first item / threading + upward loop with its early exit) = step s (insert k v) with exactly the model's key comparisons and the returned pointer at the returned position (gen_insert_plain_eq_model; gen_insert_private_{map,multi}_eq_model for the private insert started in any cell); insert(position,key,value) of Map and MultiMap = step s (insertAt p k v) (gen_insert_at_eq_model: neighbour tests, fall-back to the root, value replacement); find = step s (find k), MultiMap::count = step s (count k) (gen_find_eq_step, gen_count_eq_step).  PropsComp2 - clear() = step s clear (gen_clear_eq_step).  PropsComp3 / PropsComp5 - the complete remove(it) for EVERY item = step s (removeAt p) (gen_remove_eq_step): cell computation, the one-child paths, the two-children paths (successor iff left->height < right->height, neighbour adjacent or deeper, relinking, the rebalParent loop with its `parent = *cell` exit = the model's unconditional rebal(upd ...) of the replacement, item->next / item->prev = in-order neighbour), rebalParentUpwards, unlinking from the list, --_size, push onto the free list, returned iterator.  PropsComp4 / PropsComp5 - the one-line bodies, recognised by the shape of their syntax trees: contains = step s (contains k) (gen_contains_eq_step), removeFront / removeBack = step s removeFront / removeBack (gen_remove_front_eq_step, gen_remove_back_eq_step), remove(key) = step s (removeKey k) (gen_remove_key_eq_step).  The model is additionally tied to the current headers on every run: identical op lines are executed on both (two Maps and two MultiMaps) and compared on size, full iteration, returned iterator, key comparisons of every op (not of copy construction / assignment: the property bounds lookups only), for every key of the domain the find result and its comparison count, and (white-box, both tiers) the serialised tree with every stored height/slope and parent link, the prev/next list as item ids and the free list in order (a copy-constructed container is compared without item ids and free list from then on: how many items a copy constructor allocates at once is not part of the property); an independent Python sorted (multi)map and the direct integer evaluation of the comparison bound are evaluated on the implementation's output.",
+        "note": "Trusted: Lean kernel + the three standard axioms; tools/gen_avl.py (tokenizer + parser + translation of a C++ subset: Item* = Nat with 0 = null and item id i at pointer i+1, Item*& / Item** = Cell, usize = Nat, ssize = Int, `usize - usize` stored into an ssize = mathematical difference, loops = recursion in a fuel argument (the theorems show height+1 resp. size+1 units suffice), ASSERTs and destructor calls skipped, the block allocation `new char[sizeof(ItemBlock) + sizeof(Item) * N]` + fill loop recognised as a unit = Heap.allocBlock (allocation never fails; the b-th block holds the pointers N*b+1..N*b+N), `new(item) Item(parent,key,value)` = the stores of the constructor's initialiser list, the threading statements / the upward loop / the loops of remove outlined into separately translated fragments cut from the same text, labels of remove as continuations; anything outside the subset is refused and reported as a broken tie); the hypothesis EndOutsideNextBlock of the insert theorems (the sentinel endItem, a member of the container, does not lie inside the block the pool allocates next).  NOT proved by translation, only hand-translated in the model and tied by the correspondence run incl. the white-box comparison: the copy loops of the copy constructor / operator= / insert(const Map&) (they run over a second container), the iterator accessors.  Pointers in the model are in-order positions / item ids (an iterator handed to insert/remove is the position it has in the iteration; the translated code receives the pointer of the item at that position); the checked model has Int keys, the key-generic copy ModelK.lean is proved equal to it at K = Int (G.int_instance); the items-per-block constant of the node pool is translated from the current headers on every run (Generated/AvlConst.lean) and the translated insertLeaf must use the same value (map_insertLeaf_eq / multi_insertLeaf_eq); valid iterators; self-assignment is C04's business.  The MultiMap.hpp copies of the rotation functions, of the upward loops, of the threading, of clear and of remove are proved equal to the Map.hpp ones (code_eq, multi_*).  The repaired MultiMap::find/count (fixes/avl/01,02) is what the model mirrors.",
         "design_ref": "DESIGN.md 3/C01",
     }
 }
-PROPS = ["Nstd.Avl.Props", "Nstd.Avl.PropsK", "Nstd.Avl.PropsIds", "Nstd.Avl.PropsRot", "Nstd.Avl.PropsKSpec", "Nstd.Avl.PropsComp", "Nstd.Avl.PropsComp2", "Nstd.Avl.PropsComp3", "Nstd.Avl.PropsComp4"]
+PROPS = ["Nstd.Avl.Props", "Nstd.Avl.PropsK", "Nstd.Avl.PropsIds", "Nstd.Avl.PropsRot", "Nstd.Avl.PropsKSpec", "Nstd.Avl.PropsComp", "Nstd.Avl.PropsComp2", "Nstd.Avl.PropsComp3", "Nstd.Avl.PropsComp4", "Nstd.Avl.PropsComp5"]
 LEAN_TARGETS = PROPS + ["drv_avl"]
 DRIVER = "drv_avl"
 
@@ -623,8 +623,7 @@ def check(ctx):
         "self-assignment and self bulk insert are outside this property's generators (C04); copies are made between two different containers of the same kind",
     ]
     ctx.cov["open_statements"] = [
-        "remove(it) of an item with two children (successor / predecessor relinking + rebalParent loop): translated into the generated `remove`, not proved equal to the model's removeRoot / popMin / popMax (OPEN block of PropsComp3.lean); tied by the correspondence run incl. the white-box comparison",
-        "remove(key), removeFront, removeBack, contains, the copy loops (copy constructor, operator=, insert(const Map&)): hand-translated in the model, tied by the correspondence run",
+        "the copy loops (copy constructor, operator=, insert(const Map&)) run over a second container and are not translated: hand-translated in the model (St.assignFrom / St.insertAll), tied by the correspondence run; every insert they call is covered (gen_insert_plain_eq_model / gen_insert_at_eq_model)",
     ]
     proof_ok = C.proof_stage(ctx, PROPS, [DRIVER], gen=gen, leanchecker=(ctx.tier == "thorough"))
     harness = C.build_harness(ctx, "avl", SOURCES, extra_flags=ipb_flags())
